@@ -1,6 +1,7 @@
 (* C10 — identifiers received from a peer are re-emitted byte-for-byte; identity is by logical fields. *)
 From EDP Require Import Base.Bytes Term.Term Gen.Tags Gen.DecoderArms Gen.Ranks.
 From EDP Require Import Codec.Encode Codec.Decode Codec.Norm Codec.RoundTrip Codec.RoundTrip2 Order.Cmp Order.CmpFacts Order.HashStream.
+From EDP Require Gen.HashFields Order.HashFieldsFacts.
 
 (* 1. capture: a LOCAL_EXT wrapper (any 8-byte hash h, any nested encoding nb the decoder accepts — modern or
       legacy) around an identifier is decoded to that identifier carrying exactly the bytes h ++ nb ... *)
@@ -72,5 +73,10 @@ Qed.
 Theorem C10_cmp_ignores_loc : forall p l1 l2 q,
   cmp_owned (TPid (set_ploc p l1)) q = cmp_owned (TPid (set_ploc p l2)) q.
 Proof. intros p l1 l2 q. destruct q; reflexivity. Qed.
+
+(* the code's own ==, hash and order of pids, ports and references look at the logical fields only — the field lists are
+   read from types.rs by the translator (Gen/HashFields.v) and none contains local_ext_bytes *)
+Theorem C10_code_identity_is_by_logical_fields : forallb HashFieldsFacts.row_lawful HashFields.id_fields = true.
+Proof. exact HashFieldsFacts.identifier_fields_lawful. Qed.
 
 Check C10_local_captured.
